@@ -545,4 +545,60 @@ PURITY_MUTANTS = [
 ]
 MUTANTS += PURITY_MUTANTS
 
+PRINTER_MUTANTS = [
+    dict(id="c14-events-unguarded-regress", props=["C14"], rule="Q1", names="event.type",
+         edits=[(EVENTS, """        if not isinstance(event, MarshalEvent):
+            # warnings and other info events have neither type nor path nor value
+            yield f"{Fore.RED}{event}{Style.RESET_ALL}"
+            continue
+""", "")]),
+    dict(id="c14-pretty-unguarded", props=["C14"], rule="Q1", names="event.path",
+         edits=[(PRETTY, "    for event in events:\n        if (\n            isinstance(event, MarshalEvent)\n            and is_list(event.type)", "    for event in events:\n        if (\n            len(event.path) > 0\n            and isinstance(event, MarshalEvent)\n            and is_list(event.type)")]),
+    dict(id="c14-drop-nonchild", props=["C14"], rule="Q2",
+         edits=[(PRETTY, """            # abort if it is not a list element
+            if not is_child(parent_event, child_event):
+                if is_empty:
+                    yield from pretty(parent_event)
+                return child_event
+""", """            # abort if it is not a list element
+            if not is_child(parent_event, child_event):
+                if is_empty:
+                    yield from pretty(parent_event)
+                    return child_event
+                continue
+""")]),
+    dict(id="c14-child-twice", props=["C14"], rule="Q2", names="twice",
+         edits=[(PRETTY, "            yield from pretty(child_event)\n            is_empty = False\n", "            yield from pretty(child_event)\n            yield from pretty(child_event)\n            is_empty = False\n")]),
+    dict(id="c14-info-dropped-in-list", props=["C14"], rule="Q2",
+         edits=[(PRETTY, """            if not isinstance(child_event, MarshalEvent):
+                yield from pretty(child_event)
+                continue
+
+            # abort if it is not a list element
+            if not is_child(parent_event, child_event):
+                break
+""", """            if not isinstance(child_event, MarshalEvent):
+                continue
+
+            # abort if it is not a list element
+            if not is_child(parent_event, child_event):
+                break
+""")]),
+    dict(id="c14-empty-parent-hidden", props=["C14"], rule="Q2", names="parent",
+         edits=[(PRETTY, "            except StopIteration:\n                if is_empty:\n                    yield from pretty(parent_event)\n                return None", "            except StopIteration:\n                return None")]),
+    dict(id="c14-indent", props=["C14"], rule="Q4", names="indent depth",
+         edits=[(PRETTY, "    layer = len(path) - 1\n", "    layer = len(path)\n")]),
+    dict(id="c14-attrs-for-elements", props=["C14"], rule="Q4", names="pretty_attrs",
+         edits=[(PRETTY, "            yield from pretty(child_event)\n            is_empty = False\n", "            yield from pretty(child_event)\n            yield from pretty_attrs(child_event)\n            is_empty = False\n")]),
+    dict(id="c14-hex-of-other-event", props=["C14"], rule="Q4", names="pretty row",
+         edits=[(PRETTY, '    data = b"".join(binary_unmarshal((event,)))\n', '    data = b"".join(binary_unmarshal((event, event)))\n')]),
+    dict(id="c14-main-loop-skip", props=["C14"], rule="Q2", names="main loop",
+         edits=[(PRETTY, "        yield from pretty(event)\n        if (\n            show_attributes", "        if isinstance(event, MarshalEvent) and event.value is ...:\n            continue\n        yield from pretty(event)\n        if (\n            show_attributes")]),
+    dict(id="c14-byte-alias-type", props=["C14"], rule="Q3", names="element type",
+         edits=[(STRUCT, "@tpm_dataclass\nclass TPM2B_DIGEST:\n    size: UINT16\n    buffer: list[BYTE]\n", "@tpm_dataclass\nclass TPM2B_DIGEST:\n    size: UINT16\n    buffer: list[UINT8]\n")]),
+    dict(id="c14-benign-rename", props=["C14"], benign=True,
+         edits=[(PRETTY, "child_event", "nxt", 0)]),
+]
+MUTANTS += PRINTER_MUTANTS
+
 MUTANTS = [m for m in MUTANTS if not m.get("skip_if_missing")]
